@@ -65,6 +65,29 @@ func (s *checkpoint) Save() {
 	s.saveLock.Lock()
 	defer s.saveLock.Unlock()
 
+	// take the dirty marks and lower them before the positions are read: a vBucket
+	// acknowledged from here on raises its mark again and is stored by the next save,
+	// while a position moved by a library document (a checkpoint write fed back by
+	// the stream) raises none
+	dirtyOffsetsDump := map[uint16]bool{}
+	var dirtyOffsetCount int
+
+	dirtyOffsets.Range(func(vbID uint16, dirt bool) bool {
+		if dirt {
+			dirtyOffsetCount++
+		}
+
+		dirtyOffsetsDump[vbID] = dirt
+
+		return true
+	})
+
+	for vbID, dirt := range dirtyOffsetsDump {
+		if dirt {
+			dirtyOffsets.Delete(vbID)
+		}
+	}
+
 	checkpointDump := map[uint16]*models.CheckpointDocument{}
 
 	offsets.Range(func(vbID uint16, offset *models.Offset) bool {
@@ -83,19 +106,6 @@ func (s *checkpoint) Save() {
 		return true
 	})
 
-	dirtyOffsetsDump := map[uint16]bool{}
-	var dirtyOffsetCount int
-
-	dirtyOffsets.Range(func(vbID uint16, dirt bool) bool {
-		if dirt {
-			dirtyOffsetCount++
-		}
-
-		dirtyOffsetsDump[vbID] = dirt
-
-		return true
-	})
-
 	s.metric.OffsetWrite = dirtyOffsetCount
 
 	start := time.Now()
@@ -107,22 +117,17 @@ func (s *checkpoint) Save() {
 	if err == nil {
 		logger.Log.Trace("saved checkpoint")
 
-		// forget only what was stored: a vBucket acknowledged while the store call
-		// was in flight has moved on and stays dirty for the next save
-		for vbID, doc := range checkpointDump {
-			if !dirtyOffsetsDump[vbID] {
-				continue
-			}
-
-			if current, ok := offsets.Load(vbID); ok && current.SeqNo == doc.Checkpoint.SeqNo {
-				dirtyOffsets.Delete(vbID)
-			}
-		}
-
 		if dirtyOffsets.Count() == 0 {
 			s.stream.UnmarkDirtyOffsets()
 		}
 	} else {
+		// nothing was stored: the marks come back
+		for vbID, dirt := range dirtyOffsetsDump {
+			if dirt {
+				dirtyOffsets.Store(vbID, true)
+			}
+		}
+
 		logger.Log.Error("error while saving checkpoint document: %v", err)
 	}
 }
